@@ -36,7 +36,25 @@ func (g *Gen) LemmaFT(only map[string]bool) []*FT {
 			if ax.Ind == "" {
 				var hints []string
 				env.hints = &hints
-				t, err := env.EvalBool(ax.E)
+				goalE := ax.E
+				if len(ax.Using) > 0 {
+					q, ok := ax.E.(*EQuant)
+					if !ok || !q.Forall {
+						ft.unsupported("lemma %s: 'using' needs a top-level forall", ax.Name)
+						return
+					}
+					var hs Expr
+					for _, u := range ax.Using {
+						h := &ECall{Fn: "hint", Args: []Expr{u}}
+						if hs == nil {
+							hs = h
+						} else {
+							hs = &EBin{Op: "&&", L: hs, R: h}
+						}
+					}
+					goalE = &EQuant{Forall: true, Vars: q.Vars, Body: &EBin{Op: "==>", L: hs, R: q.Body}}
+				}
+				t, err := env.EvalBool(goalE)
 				if err != nil {
 					ft.unsupported("lemma %s: %v", ax.Name, err)
 					return
